@@ -245,6 +245,10 @@ def gen(seed, cfg=None):
     if cluster == "scale" and rng.random() < 0.7:
         # the ordinary request is stopped once inside the lookup/creation/caching code, the bulk thread runs in between
         scn["policy"] = {"kind": "sweep1", "t": 0, "mode": "hot", "frac": rng.random(), "f2": rng.random()}
+    if cluster not in ("callrace", "datascale", "scale") and rng.random() < 0.12:
+        # one caller is interrupted (KeyboardInterrupt- or RecursionError-shaped, at a function entry) in the middle of a
+        # request while the others go on using the same retort
+        scn["kill"] = {"t": rng.randrange(n_threads), "frac": rng.random(), "exc": rng.choice(["base", "base", "recursion"])}
     if (cfg or {}).get("instr_share", 0) > 0 and rng.random() < cfg["instr_share"]:
         scn["granularity"] = "instr"    # opcode-level preemption inside the hot files
     return scn
@@ -259,6 +263,8 @@ def _solo_desc(scn, t):
         d["prologue"] = scn["prologue"]
     if scn.get("granularity") == "instr":
         d["granularity"] = "instr"
+    if scn.get("kill") and scn["kill"]["t"] == t and "frac" in scn["kill"]:
+        d["entries"] = True     # the solo measurement also counts the thread's function entries (crash points)
     return d
 
 
@@ -284,13 +290,15 @@ def refs_needed(scn):
     out = [d for d in ops.static_ref_descs([scn["handle"]], scn.get("prologue") or []) if d is not None]
     for t, prog in enumerate(scn["threads"]):
         out.extend(d for d in ops.static_ref_descs([scn["handle"]], prog) if d is not None)
-        if _needs_solo(scn["policy"]):
+        if _needs_solo(scn["policy"], scn):
             out.append(_solo_desc(scn, t))
     out.extend(ops.static_ref_descs([scn["handle"]], _post_ops(scn)))
     return out
 
 
-def _needs_solo(pol):
+def _needs_solo(pol, scn=None):
+    if scn is not None and scn.get("kill") and "frac" in scn["kill"]:
+        return True
     return pol["kind"] in ("sweep1", "pct") and any(k in pol for k in ("frac", "cp_fracs", "cp_hot"))
 
 
@@ -299,9 +307,13 @@ def compute_ref(desc):
     if desc["op"] == "solo":
         scn = {"handle": desc["handle"], "threads": [desc["program"]], "policy": {"kind": "solo"},
                "prologue": desc.get("prologue") or [],
-               "norm_cache": desc["norm_cache"], "granularity": desc.get("granularity", "line")}
+               "norm_cache": desc["norm_cache"], "granularity": desc.get("granularity", "line"),
+               "count_entries": bool(desc.get("entries"))}
         res = execute(scn, None)
-        return {"steps": res["steps"][0], "hot": res["hot"].get(0, {})}
+        out = {"steps": res["steps"][0], "hot": res["hot"].get(0, {})}
+        if desc.get("entries"):
+            out["entries"] = res["entries"][0]
+        return out
     return ops.compute_ref(desc)
 
 
@@ -353,13 +365,13 @@ def execute(scn, refs):  # noqa: C901, PLR0912, PLR0915
     n = len(scn["threads"])
     prologue_out = [main_world.run(op)[0] for op in scn.get("prologue") or []]     # single-threaded, unmonitored
     solo = [{"steps": 1, "hot": {}} for _ in range(n)]
-    if refs is not None and _needs_solo(scn["policy"]):
+    if refs is not None and _needs_solo(scn["policy"], scn):
         for t in range(n):
             solo[t] = refs.get(canon(_solo_desc(scn, t)), solo[t])
     solo_steps = [s["steps"] for s in solo]
     policy = make_policy(scn["policy"], solo)
     budget = 400_000 if refs is None else 3 * sum(max(s, 3000) for s in solo_steps) + 50_000
-    if refs is not None and not _needs_solo(scn["policy"]):
+    if refs is not None and not _needs_solo(scn["policy"], scn):
         budget = 1_500_000
     if scn["policy"]["kind"] in ("walk", "rr", "replay") and refs is not None:
         budget = 1_500_000
@@ -368,13 +380,21 @@ def execute(scn, refs):  # noqa: C901, PLR0912, PLR0915
     sched.instr = scn.get("granularity") == "instr"
     sched.instr_files = INSTR_FILES
     patcher.sched = sched
+    sched.count_entries = bool(scn.get("count_entries"))
+    kl = scn.get("kill")
+    if kl and refs is not None:
+        from .histsim import SimInterrupt, SimRecursionError
+        k = kl["k"] if "k" in kl else 1 + int(kl["frac"] * max(0, solo[kl["t"]].get("entries", 1) - 1))
+        if kl["t"] < n:
+            sched.kill = {"t": kl["t"], "k": k, "exc": SimInterrupt if kl.get("exc", "base") == "base" else SimRecursionError}
     results = [[] for _ in range(n)]
     worlds = [ops.World(None, share=main_world) for _ in range(n)]
     sched.watch = {v: k for k, v in probe_sites().items() if v is not None}
 
     def make_body(t):
         def body():
-            for op in scn["threads"][t]:
+            for i, op in enumerate(scn["threads"][t]):
+                sched.cur_op[t] = i
                 sched.in_flight.add(t)
                 try:
                     out, _, _ = worlds[t].run(op)
@@ -418,7 +438,11 @@ def execute(scn, refs):  # noqa: C901, PLR0912, PLR0915
     }
     if refs is None:
         stats["hot"] = sched.hot
+        stats["entries"] = list(sched.entries)
         return stats
+    killed = sched.killed
+    stats["caller_killed"] = 1 if killed else 0
+    stats["caller_kill_planned_not_reached"] = 1 if (sched.kill and not killed) else 0
     # oracle 5: ids handed out by the locked counter are pairwise distinct per base name
     seen = {}
     for name, idx, tid in idx_seen:
@@ -443,6 +467,8 @@ def execute(scn, refs):  # noqa: C901, PLR0912, PLR0915
                     violations.append({"class": "op-missing", "thread": t, "op_index": i, "op": op})
                     break
                 obs = results[t][i]
+                if killed and killed["t"] == t and killed["op_index"] == i:
+                    continue      # the interrupted call itself is not compared, everything after and around it is
                 if op["op"] in ("replace", "extend") and obs[0] != "handle":
                     violations.append({"class": "unexpected-exception", "phase": "concurrent", "thread": t, "op_index": i,
                                        "op": op, "expected": ["handle"], "observed": obs})
@@ -491,7 +517,7 @@ def execute(scn, refs):  # noqa: C901, PLR0912, PLR0915
     stats["both_missed_cache"] = sum(1 for v in makers.values() if len(v) > 1)
     segs = [[tid, (-1 if kind in ("finish", "block") else cnt), cnt] for tid, cnt, kind in sched.segments]
     return {
-        "violations": violations, "stats": stats, "segments": segs,
+        "violations": violations, "stats": stats, "segments": segs, "killed": killed,
         "switches": sched.switches[:200], "steps": list(sched.steps),
     }
 
@@ -531,17 +557,32 @@ def _run_with_extras(sched, counter_code, on_counter_return):
 def to_replay(scn, result):
     s = dict(scn)
     s["policy"] = {"kind": "replay", "segments": result["segments"]}
+    if scn.get("kill"):
+        kd = result.get("killed")
+        if kd:    # the fault trace made explicit: absolute entry number and site
+            s["kill"] = {"t": kd["t"], "k": kd["k"], "exc": scn["kill"].get("exc", "base"), "site": kd["at"]}
+        else:
+            s.pop("kill")
     return s
 
 
 def candidates(scn):  # noqa: C901
     """Smaller scenarios, most aggressive first. Each is one deterministic re-execution."""
     threads = scn["threads"]
+    if scn.get("kill"):
+        s = dict(scn)
+        s.pop("kill")
+        yield s
     segs = scn["policy"].get("segments")
     # drop a whole thread (keep >= 2 while a schedule matters; 1 thread = pure history bug)
     if len(threads) > 1:
         for t in range(len(threads)):
             s = dict(scn)
+            if s.get("kill"):
+                if s["kill"]["t"] == t:
+                    s.pop("kill")
+                elif s["kill"]["t"] > t:
+                    s["kill"] = {**s["kill"], "t": s["kill"]["t"] - 1}
             s["threads"] = [p for i, p in enumerate(threads) if i != t]
             if segs is not None:
                 ns = []
@@ -659,6 +700,7 @@ def summarize(scn, res):
             "preemptions": st.get("preemptions", 0), "lock_blocks": st.get("lock_blocks", 0),
             "overlap_steps": st.get("overlap_steps", 0), "site_hits": st.get("site_hits", {}),
             "both_missed_cache": st.get("both_missed_cache", 0), "counter_ids": st.get("counter_ids", 0),
+            "caller_killed": st.get("caller_killed", 0), "kill_not_reached": st.get("caller_kill_planned_not_reached", 0),
             "digest": st.get("digest"), "norm_cache": scn.get("norm_cache"), "sweep": bool(scn.get("sweep")),
             "instr": scn.get("granularity") == "instr"}
 
@@ -694,6 +736,9 @@ def coverage(oks, tier):
             "preemption": sum(r["summary"]["preemptions"] for r in oks),
             "blocked_on_simulated_lock": sum(r["summary"]["lock_blocks"] for r in oks),
             "runs_with_overlapping_requests": sum(1 for r in oks if r["summary"]["nontrivial"]),
+            "caller_thread_interrupted_mid_request": sum(r["summary"].get("caller_killed", 0) for r in oks),
+            "caller_interrupt_planned_but_request_already_served": sum(r["summary"].get("kill_not_reached", 0) for r in oks),
+            "scale_scenarios_(caches_of_100s_to_1000s_of_entries)": clu.get("scale", 0) + clu.get("datascale", 0),
         },
         "policies": dict(pol), "clusters": dict(clu),
         "runs_at_opcode_granularity_in_hot_files": sum(1 for r in oks if r["summary"].get("instr")),
@@ -703,5 +748,7 @@ def coverage(oks, tier):
                          "both_threads_missed_facade_cache": sum(r["summary"]["both_missed_cache"] for r in oks),
                          "counter_ids_observed": sum(r["summary"]["counter_ids"] for r in oks)},
         "components": {"real": ["all of adaptix", "CPython threads", "dict / lru_cache / linecache"],
-                       "stubbed": ["every lock adaptix owns (SimLock)", "the choice of which thread runs next"]},
+                       "stubbed": ["every lock adaptix owns (SimLock)", "threading.Event (SimEvent)",
+                                   "the choice of which thread runs next",
+                                   "interrupt delivery to one caller (raised from a PY_START monitoring callback)"]},
     }
